@@ -521,6 +521,42 @@ func checkJoin(r *Run, rc *RuleCtx, m *clientModel) {
 				}
 				rc.ViolationPath(fn, pos, "return without closing the agent", "in-flight transactions never receive their closed event", w)
 			}
+			// ... and the stop signal of the reader, and the wait for it (whatever the agent/connection Close returned)
+			for _, tgt := range []struct {
+				what string
+				pred func(x ssa.Instruction) bool
+			}{
+				{"stop signal (close of the client's channel)", func(x ssa.Instruction) bool {
+					if !isBuiltinCall(x, "close") {
+						return false
+					}
+					_, f := loadedField(callArgs(x)[0])
+					return f == m.CloseCh
+				}},
+				{"WaitGroup.Wait", func(x ssa.Instruction) bool {
+					if !isMethodCall(x, "sync", "WaitGroup", "Wait") {
+						return false
+					}
+					_, f := addrField(callArgs(x)[0])
+					return f == m.WG
+				}},
+			} {
+				pred := tgt.pred
+				bad, rets := mustPass(p, fn, cc, func(x ssa.Instruction, deferred bool, c *PathCtx) bool {
+					if _, isD := x.(*ssa.Defer); isD && !deferred {
+						return false
+					}
+					return pred(x)
+				}, func(ret *ssa.Return, c *PathCtx) bool { return c.NilState(ccv) != -1 })
+				rc.Instance(fnName(fn)+"|"+tgt.what, true, nil)
+				for i, w := range bad {
+					pos := fn.Pos()
+					if rets[i] != nil {
+						pos = instrPos(rets[i])
+					}
+					rc.ViolationPath(fn, pos, "return without "+tgt.what, "Close returns (e.g. on an agent or connection Close error) while the reader goroutine has not been told to stop or has not been awaited: goroutine leak, handlers invoked after Close", w)
+				}
+			}
 		}
 	}
 }
